@@ -54,6 +54,7 @@ class Engine:
 
     def native(self, *args):
         p = subprocess.run([self.replay_exe, "--eval"] + [str(a) for a in args], stdout=subprocess.PIPE, stderr=subprocess.DEVNULL, text=True, timeout=60)
+        self.last_native = ([str(a) for a in args], p.stdout.strip())       # kept in the replay record: `./check --replay` re-runs it
         return p.stdout.strip()
 
 
@@ -124,9 +125,12 @@ def run_kernel(eng, kid, clause, bound, build, validate=None, replay=None):
             r["query"] = cex[0]
             r["reason"] = "solver model violates %s" % cex[0]
             if replay:
+                eng.last_native = None
                 ok, text = replay(eng, cex[1])
                 r["reproduced"] = ok
                 r["native"] = text
+                if getattr(eng, "last_native", None):
+                    r["native_cmd"], r["native_out"] = eng.last_native
                 if not ok:
                     r["reason"] += " but it does not reproduce natively: " + text[:200]
             return r
